@@ -1,6 +1,8 @@
 package props
 
 import (
+	"fmt"
+
 	"github.com/Syuparn/pangaea/object"
 )
 
@@ -15,4 +17,13 @@ func propIn(obj *object.PanObj, propName string) (object.Pair, bool) {
 	propSym := object.GetSymHash(propName)
 	pair, ok := (*obj.Pairs)[propSym]
 	return pair, ok
+}
+
+// recoverRegexPanic reports a panic raised while a pattern is applied (regexp2 fails on some
+// lookaround patterns such as `(?=$+?)`) as ValueErr instead of aborting the interpreter.
+func recoverRegexPanic(pattern *object.PanStr, ret *object.PanObject) {
+	if r := recover(); r != nil {
+		*ret = object.NewValueErr(
+			fmt.Sprintf("%s cannot be applied as regex pattern", pattern.Repr()))
+	}
 }
